@@ -37,11 +37,14 @@ type C06Config struct {
 	// SubPrefixes: submodules whose belongs-to prefix differs from the prefix of the module they
 	// belong to, importing other modules under the module's own prefix or a sibling's belongs-to prefix.
 	SubPrefixes bool
+	// OldRevisions: one imported module sometimes has a revision and the case carries an older
+	// revision of it (C06Case.OldRev).
+	OldRevisions bool
 }
 
 // C06Default is the configuration the runner uses.
 func C06Default() C06Config {
-	return C06Config{MaxModules: 3, Submodules: true, Mutate: true, BadRate: 0.05, Extras: true, SubPrefixes: true}
+	return C06Config{MaxModules: 3, Submodules: true, Mutate: true, BadRate: 0.05, Extras: true, SubPrefixes: true, OldRevisions: true}
 }
 
 // C06UseRef is one `uses` statement and the grouping it must bind to.
@@ -103,6 +106,13 @@ type C06AugNode struct {
 	IM     string   `json:"im"`
 }
 
+// C06OldRev is an older revision of the module at Index of the case's files.
+type C06OldRev struct {
+	Index int    `json:"index"`
+	Name  string `json:"name"`
+	Text  string `json:"text"`
+}
+
 // C06Case is one generated case.
 type C06Case struct {
 	Names, Texts       []string // base variant (no augment, no deviation)
@@ -113,7 +123,8 @@ type C06Case struct {
 	Late               *C06Late
 	MutKinds           []string // what the mutated variant applies
 	AugNodes           []C06AugNode
-	MutProps           []string // "deviate-kind target-keyword property" of every deviate property written
+	OldRev             *C06OldRev // an older revision of one imported module (nil when none)
+	MutProps           []string   // "deviate-kind target-keyword property" of every deviate property written
 	Groupings          int
 	// ExtrasNodes: nodes of the expansion with a non-empty Extra / Exts prediction; ExtrasUses: uses
 	// statements with extras of their own; CapSensitive: copied nodes with exactly three own values
@@ -497,8 +508,11 @@ func (g *c06) leafType(n *Node) {
 	m := g.root(n)
 	switch k := g.r.Intn(10); {
 	case k <= 3:
-		// a typedef reference when one is in sight
+		// a typedef reference when one is in sight: the own module's, or an imported module's
 		refs := []string{"t", m.Prefix + ":t"}
+		for _, o := range m.Imports {
+			refs = append(refs, m.ImportPrefix[o]+":t")
+		}
 		ref := g.pick(refs)
 		if td, _ := g.resolve(n, "typedef", ref); td != nil {
 			g.add(n, "type", ref)
@@ -844,6 +858,21 @@ func C06Generate(r *rand.Rand, cfg C06Config) *C06Case {
 			}
 		}
 	}
+	// one imported module sometimes carries a revision, so that an older revision of it can be loaded
+	// and processed first (the faithful copy of later uses must not remember it)
+	var revised *Module
+	if cfg.OldRevisions && g.chance(0.3) {
+		var cands []*Module
+		for _, m := range set.Mods {
+			for _, o := range m.Imports {
+				cands = append(cands, o)
+			}
+		}
+		if len(cands) > 0 {
+			revised = cands[r.Intn(len(cands))]
+			revised.Revisions = []string{"2020-01-01"}
+		}
+	}
 	if cfg.Submodules {
 		var subs []*Module
 		for _, m := range set.Mods {
@@ -1045,6 +1074,9 @@ func C06Generate(r *rand.Rand, cfg C06Config) *C06Case {
 	c := &C06Case{Faulty: g.faulty}
 	c.Names, c.Texts = g.render(nil)
 	g.collect(c)
+	if revised != nil && !g.faulty && (declared2(revised.Body, "grouping") != nil || declared2(revised.Body, "typedef") != nil) {
+		c.OldRev = g.oldRevision(revised)
+	}
 	if cfg.Mutate && !g.faulty {
 		g.mutate(c)
 	}
@@ -1494,36 +1526,77 @@ func (g *c06) render(extra map[*Module][]*Node) (names, texts []string) {
 		g.pos = map[*Node]string{}
 	}
 	for _, m := range g.set.Mods {
-		w := &c06Writer{}
-		file := m.FileName()
-		kw := "module"
-		if m.Sub {
-			kw = "submodule"
-		}
-		w.ln(fmt.Sprintf("%s %s {", kw, m.Name))
-		if m.Sub {
-			w.ln(fmt.Sprintf("  belongs-to %s { prefix %s; }", m.Owner.Name, m.Prefix))
-		} else {
-			w.ln(fmt.Sprintf("  namespace %q;", m.Namespace))
-			w.ln(fmt.Sprintf("  prefix %s;", m.Prefix))
-		}
-		for _, o := range m.Imports {
-			w.ln(fmt.Sprintf("  import %s { prefix %s; }", o.Name, m.ImportPrefix[o]))
-		}
-		for _, s := range m.Includes {
-			w.ln(fmt.Sprintf("  include %s;", s.Name))
-		}
-		for _, c := range m.Body.Kids {
-			g.renderNode(w, file, c, "  ")
-		}
-		for _, c := range extra[m] {
-			g.renderNode(w, file, c, "  ")
-		}
-		w.ln("}")
-		names = append(names, file)
-		texts = append(texts, w.sb.String())
+		names = append(names, m.FileName())
+		texts = append(texts, g.renderModule(m, m.FileName(), m.Revisions, m.Body.Kids, extra[m]))
 	}
 	return
+}
+
+// renderModule prints one file (and records the position of every statement it prints).
+func (g *c06) renderModule(m *Module, file string, revisions []string, kids, extra []*Node) string {
+	w := &c06Writer{}
+	kw := "module"
+	if m.Sub {
+		kw = "submodule"
+	}
+	w.ln(fmt.Sprintf("%s %s {", kw, m.Name))
+	if m.Sub {
+		w.ln(fmt.Sprintf("  belongs-to %s { prefix %s; }", m.Owner.Name, m.Prefix))
+	} else {
+		w.ln(fmt.Sprintf("  namespace %q;", m.Namespace))
+		w.ln(fmt.Sprintf("  prefix %s;", m.Prefix))
+	}
+	for _, o := range m.Imports {
+		w.ln(fmt.Sprintf("  import %s { prefix %s; }", o.Name, m.ImportPrefix[o]))
+	}
+	for _, s := range m.Includes {
+		w.ln(fmt.Sprintf("  include %s;", s.Name))
+	}
+	for _, r := range revisions {
+		w.ln(fmt.Sprintf("  revision %s;", r))
+	}
+	for _, c := range kids {
+		g.renderNode(w, file, c, "  ")
+	}
+	for _, c := range extra {
+		g.renderNode(w, file, c, "  ")
+	}
+	w.ln("}")
+	return w.sb.String()
+}
+
+// oldRevision builds an older revision of module m (which carries revision 2020-01-01): every
+// top-level grouping has an extra leaf old-<name>, the typedef t another base type. Loaded first
+// and processed, it is what importers' groupings expand to; once the real text is loaded, every
+// later run must forget that.
+func (g *c06) oldRevision(m *Module) *C06OldRev {
+	var kids []*Node
+	for _, k := range m.Body.Kids {
+		switch k.Kw {
+		case "grouping":
+			old := &Node{Kw: "leaf", Arg: "old-" + k.Arg, Kids: []*Node{{Kw: "type", Arg: "string"}}}
+			kids = append(kids, &Node{Kw: k.Kw, Arg: k.Arg, Kids: append([]*Node{old}, k.Kids...)})
+		case "typedef":
+			base := "string"
+			if t := declared2(k, "type"); t != nil && t.Arg == "string" {
+				base = "int8"
+			}
+			kids = append(kids, &Node{Kw: k.Kw, Arg: k.Arg, Kids: []*Node{{Kw: "type", Arg: base}}})
+		default:
+			kids = append(kids, k)
+		}
+	}
+	saved := g.pos
+	g.pos = map[*Node]string{}
+	text := g.renderModule(m, m.Name+"@2019-01-01.yang", []string{"2019-01-01"}, kids, nil)
+	g.pos = saved
+	idx := 0
+	for i, x := range g.set.Mods {
+		if x == m {
+			idx = i
+		}
+	}
+	return &C06OldRev{Index: idx, Name: m.Name + "@2019-01-01.yang", Text: text}
 }
 
 // ---- mutation -----------------------------------------------------------------------------
